@@ -91,6 +91,9 @@ impl AssocCfg {
 pub struct MasterCfg {
     pub master_addr: u16,
     pub tx: usize,
+    /// receive buffer (0 = the library default of 2048)
+    #[serde(default)]
+    pub rx: usize,
     pub close_mode: bool,
     pub decode_all: bool,
     pub connect_min_ms: u64,
@@ -110,6 +113,7 @@ impl MasterCfg {
         Self {
             master_addr: 1,
             tx: 2048,
+            rx: 0,
             close_mode: false,
             decode_all: false,
             connect_min_ms: 1000,
@@ -578,6 +582,9 @@ impl MasterNode {
             EndpointAddress::try_new(cfg.master_addr).expect("master address"),
         );
         mc.tx_buffer_size = BufferSize::new(cfg.tx).expect("tx size");
+        if cfg.rx != 0 {
+            mc.rx_buffer_size = BufferSize::new(cfg.rx).expect("rx size");
+        }
         if cfg.decode_all {
             mc.decode_level = DecodeLevel::new(
                 AppDecodeLevel::ObjectValues,
